@@ -136,6 +136,7 @@ class Skel:
                       'try_blocks': 0}
         self._contains = {}
         self.dyntags, self.varids, self.dyn_decls = {}, {}, []
+        self.throw_sites = []
 
     # ------------------------------------------------------------ helpers
     def canon(self, did):
@@ -416,7 +417,7 @@ class Skel:
         tp = self.match(self.spec.throws, key)
         if tp:
             self.used['throws'].add(tp)
-            lines.append(f'{ind}if (nondet_bool()) {{ {self.throw_stmt()} }}   /* {tp} may throw */')
+            lines.append(f'{ind}if (nondet_bool()) {{ {self.throw_stmt(tp)} }}   /* {tp} may throw */')
         return val
 
     def is_noreturn(self, q):
@@ -430,9 +431,10 @@ class Skel:
         if self.spec.options.get('track_throw'):
             lines.append(f'{ind}if (__skel_exc) {{ {self.unwind_stmt()} }}')
 
-    def throw_stmt(self):
+    def throw_stmt(self, what='throw expression'):
         if self.spec.options.get('track_throw'):
-            return f'__skel_exc = 1; {self.unwind_stmt()}'
+            self.throw_sites.append({'site': len(self.throw_sites) + 1, 'what': what, 'function': self.cur_name})
+            return f'__skel_exc = {len(self.throw_sites)}; {self.unwind_stmt()}'
         return self.unwind_stmt()
 
     def unwind_stmt(self):
@@ -749,7 +751,7 @@ class Skel:
             for pat, macro in self.spec.assigntags.items():
                 if suffix_match(q, pat):
                     self.events_in(rhs, lines, ind)
-                    lines.append(f'{ind}{macro}({self.tag_of(rhs)});')
+                    lines.append(f'{ind}{macro}({self.targ(rhs)});')
             for pat, macro in self.spec.assigns.items():
                 if suffix_match(q, pat):
                     c = self.cond(rhs, lines, ind)
@@ -964,7 +966,7 @@ class Skel:
 
     def emit(self):
         L = ['/* generated by cxxskel from %s -- control-flow skeleton, do not edit */' % self.spec.source,
-             '#include <stdint.h>', '_Bool nondet_bool(void); int nondet_int(void);', '_Bool __skel_exc;',
+             '#include <stdint.h>', '_Bool nondet_bool(void); int nondet_int(void);', 'int __skel_exc;   /* 0 = none, else the number of the throw site (see meta) */',
              '_Bool __skel_ret;   /* success facet (true / has_value) of the last skeleton callee that returned bool or optional */', '']
         L += self.spec.prologue + ['']
         L += ['/* current tag of mutable locals (path-sensitive) */'] + self.dyn_decls + ['']
@@ -979,7 +981,7 @@ class Skel:
         return {'unit': self.spec.unit, 'source': self.spec.source, 'level': 'E3 control-flow skeleton',
                 'functions': {n: {'qname': n, 'line': self.lines_of.get(n), 'has_body': True, 'contract': False, 'loops': [],
                                   'loops_with_contract': [], 'maythrow': False, 'calls': []} for n, _ in self.out},
-                'stats': self.stats, 'unused_spec_entries': unused,
+                'stats': self.stats, 'unused_spec_entries': unused, 'throw_sites': self.throw_sites,
                 'dropped': ['ALL data other than the tracked facets: untracked conditions are nondeterministic booleans',
                             'parameters, results, untracked calls (library and other translation units)',
                             'loops are unrolled %s times (bounded)' % self.spec.options.get('loop_bound', '2'),
